@@ -327,6 +327,8 @@ class Model:
             if p is None:
                 self.events.append(("missing-forced", inc))
                 continue
+            if os.path.realpath(p) in self.once:
+                continue  # already read and marked include-once
             self.process(p)
         self.process(main)
         return self.used, self.events
@@ -347,6 +349,10 @@ class Model:
         self._items(path, rel, self.tree[rel]["items"], self.layouts[rel])
         self.depth -= 1
 
+    def _in_system_dir(self, path):
+        d = os.path.normpath(os.path.dirname(path))
+        return any(k == "isystem" and os.path.normpath(x) == d for k, x in self.dirs)
+
     def _use(self, path, lines):
         self.used.setdefault(os.path.realpath(path), set()).update(lines)
 
@@ -357,7 +363,8 @@ class Model:
                 self._use(path, lay["lines"])
             elif k == "define":
                 self._use(path, lay["lines"])
-                if it[1] in self.macros and self.macros[it[1]] != it[2]:
+                if it[1] in self.macros and self.macros[it[1]] != it[2] and not self._in_system_dir(path):
+                    # (a compiler diagnoses this, except in system headers, where the new definition silently wins)
                     raise Invalid("incompatible redefinition")
                 self.macros[it[1]] = it[2]
             elif k == "fdefine":
